@@ -906,9 +906,16 @@ inductive R where
   | op3 (k : String) (a b c : R)
   deriving DecidableEq, Repr, Inhabited
 
-/-- `Expr(ctx, "constant", (value, like))`: with `context.alt` the value is wrapped. -/
+/-- `normalize_like`, constant case: the like of a constant is the (already normalised) like of that
+constant.  (With the alternative context an operation over constants IS a constant.) -/
+def likeOf : R → R
+  | .constA _ l => l
+  | .constV _ l => l
+  | r => r
+
+/-- `make_constant` / `Expr(ctx, "constant", (value, like))`: with `context.alt` the value is wrapped. -/
 def mkConst (alt : Bool) (v : String) (like : R) : R :=
-  if alt then .constA (.c v) like else .constV v like
+  if alt then .constA (.c v) (likeOf like) else .constV v (likeOf like)
 
 /-- `Expr(ctx, kind, operands)`: with `context.alt`, when every operand is a constant the operation
 moves into the alternative context and the result is a constant like the FIRST operand's like. -/
